@@ -63,7 +63,7 @@ func (P *Prog) verifyFunc(key string, sweepOnly bool) (res *FuncResult) {
 		written: map[string]bool{}, ghost: map[string]string{}, boolDef: map[string]string{}, factSet: map[string]bool{}}
 	st.declare("top_0", "Int")
 	st.top = "top_0"
-	st.assume("(>= top_0 1)")
+	st.assume("(and (>= top_0 1) (<= top_0 4611686018427387904))")
 	fr := x.newFrame(fn, nil)
 	x.params = map[string]Val{}
 	for _, p := range fn.Params {
@@ -131,6 +131,10 @@ func (x *Exec) atExit(st *State, fr *Frame, rets []Val, pos token.Pos) {
 	if x.con == nil {
 		return
 	}
+	// vacuity guard: the path reaching this return is satisfiable
+	x.obls = append(x.obls, &Obligation{Name: x.key + ".cover.return@" + x.P.pos(pos), Func: x.key, Kind: "cover", Label: "return", Goal: "path to this return is feasible",
+		Decls: append([]string(nil), st.decls...), Facts: append([]string(nil), st.facts...), Neg: "true", Cover: true, Pos: x.P.pos(pos), Path: x.paths,
+		Trace: append([]string(nil), st.trace...), Props: x.con.Props})
 	env := &Env{st: st, vars: map[string]Val{}, pkg: x.con.Pkg, old: x.entry}
 	for k, v := range x.params {
 		env.vars[k] = v
